@@ -35,7 +35,7 @@ func c08Lib(c *core.Ctx, wit string, desc any, body func() ([]byte, error)) (cla
 
 // c08FileBudget bounds evaluations whose steps are dominated by file loading (a $parent
 // chain of <= 3 files needs a few thousand steps; every step of a runaway loader costs a file read).
-const c08FileBudget = 2_000_000
+const c08FileBudget = 200_000
 
 // c08ConfirmedHangs counts CLI hangs this worker has confirmed with the long limit; once a
 // tree has shown two, further candidates are reported after the short limit alone.
@@ -624,13 +624,13 @@ func c08CLI(c *core.Ctx, cs c08CLICase) {
 	c.Eval()
 	c.Trans(1)
 	limit := 20 * time.Second
-	if c08ConfirmedHangs >= 2 {
+	if c08ConfirmedHangs >= 1 {
 		limit = 15 * time.Second
 	}
 	err := runWithLimit(cmd, limit)
 	wit := cs.Tool + " " + strings.Join(cs.Args, " ") + " :: " + core.JSON(cs.Files)
 	c.Validated()
-	if err == errWatchdog && c08ConfirmedHangs < 2 {
+	if err == errWatchdog && c08ConfirmedHangs < 1 {
 		// nominated only: run it once more, alone, with the generous limit before believing it
 		cmd2 := exec.Command(filepath.Join(core.WorkDir(), "bin", cs.Tool), cs.Args...)
 		cmd2.Dir = dir
